@@ -2027,7 +2027,8 @@ def distributed_shampoo(
     reset_frequency = int(np.round(1 / (1 - beta2))) if beta2 != 1 else None
     beta2 = 1.0
 
-  generate_fd_metrics = generate_fd_metrics and frequent_directions
+  generate_fd_metrics = (
+      generate_fd_metrics and frequent_directions and generate_training_metrics)
 
   if frequent_directions and compression_rank <= 0:
     raise ValueError("frequent_directions=True requires compression_rank > 0,"
